@@ -158,33 +158,52 @@ def run(rep: Report) -> None:
     rep.floor("typestate field stores", n_stores, 12)
 
     # ------------------- (c') network enumerations of typestate are never memoised
+    # to_function reads the elements' typestate through these properties of Network; a
+    # memoised one (or one that reads a memoised helper through `self`) would never see
+    # elements initialised or stepped after its first read: init_vars/step invalidate nothing.
     netci = prog.find_class("sym_metanet.network", "Network")
-    TS = {"states", "next_states", "actions", "disturbances", "has_states", "has_next_states",
-          "has_actions", "has_disturbances"}
     props = {n: f for n, f in netci.methods.items() if f.is_property()}
+    graph_lookups = set()  # cached lookups of the *graph* (covered by C08), allowed
+    try:
+        from ..effects import NetModel
 
-    def reads_typestate(name, seen=()):
-        if name in seen or name not in props:
-            return False
-        for node in ast.walk(props[name].node):
-            if isinstance(node, ast.Attribute):
-                if isinstance(node.value, ast.Name) and node.value.id == "self":
-                    if reads_typestate(node.attr, seen + (name,)):
-                        return True
-                elif node.attr in TS:
-                    return True
-        return False
+        nm_ = NetModel(prog)
+        graph_lookups = {p for p in nm_.cached}
+    except Exception:
+        graph_lookups = set()
 
-    nprops = 0
-    for name, f in sorted(props.items()):
-        if reads_typestate(name):
-            nprops += 1
-            rep.check(not f.is_cached_property(), "enumerations-uncached", f"Network.{name}",
-                      f"{prog.module('sym_metanet.network').relpath}:{f.node.lineno} Network.{name}",
-                      f"`Network.{name}` depends on the elements' initialisation/stepping state but is "
-                      "memoised: init_vars/step never invalidate it, so elements initialised or stepped "
-                      "after the first read are invisible to to_function", key=f"cached-typestate|{name}")
-    rep.floor("network properties reading element typestate", nprops, 4)
+    def cached_dependencies(name, seen=()):
+        """memoised properties/methods (other than graph lookups) reachable through self"""
+        out = []
+        f = props.get(name) or netci.methods.get(name)
+        if f is None or name in seen:
+            return out
+        cached_here = f.is_cached_property() or any(
+            (dotted_name(d.func if isinstance(d, ast.Call) else d) or "").split(".")[-1] in ("cache", "lru_cache")
+            for d in f.node.decorator_list)
+        if cached_here and name not in graph_lookups:
+            out.append(name)
+        for node in ast.walk(f.node):
+            if isinstance(node, ast.Attribute) and isinstance(node.value, ast.Name) and node.value.id == "self":
+                if node.attr in props or node.attr in netci.methods:
+                    out += cached_dependencies(node.attr, seen + (name,))
+        return out
+
+    from ..front import dotted_name
+
+    anchors = ["elements", "states", "next_states", "actions", "disturbances"]
+    have = [a_ for a_ in anchors if a_ in props]
+    for name in have:
+        bad = cached_dependencies(name)
+        f = props[name]
+        if name in graph_lookups and name in anchors:
+            bad = [name] + bad
+        rep.check(not bad, "enumerations-uncached", f"Network.{name}",
+                  f"{prog.module('sym_metanet.network').relpath}:{f.node.lineno} Network.{name}",
+                  f"`Network.{name}` is (or reads) memoised {sorted(set(bad))}: it depends on the elements' "
+                  "initialisation/stepping state, which init_vars/step never invalidate, so elements initialised "
+                  "or stepped after the first read are invisible to to_function", key=f"cached-typestate|{name}")
+    rep.floor("network enumerations read by to_function", len(have), 5)
 
     # ---------- (c'') initialising again creates new variables (so that next states computed
     # from the old ones mention symbols that are no longer arguments, which CasADi rejects)
